@@ -12,7 +12,9 @@ def conn_life(ctx, drv):
     b = vf.tlc("ConnLife", cfg="ConnLife_bug", timeout=300, workers=4)
     if b.ok or b.violated != "Inv_C03_NoCloseInFlight":
         raise vf.MachineryError("sensitivity run did not reject the idle timer that ignores queries in flight")
-    g = vf.tlc("ConnLife", cfg="ConnLife_Gen", workers=1, timeout=600)
+    # unbounded: for any number of queries, idle time-out and delays (TLAPS; fails when Fix = FALSE is assumed)
+    ctx.extra["tlaps_obligations_proved"] = vf.tlapm("ConnLifeProof", deps=("ConnLife",))
+    g = vf.tlc("ConnLife_Gen", cfg="ConnLife_Gen", workers=1, timeout=600)
     scns, seen = [], set()
     for s in vf.tlc_values(g.out, "SCN"):
         k = json.dumps(s["sends"])
